@@ -166,6 +166,15 @@ def r116(ctx, rep):
         c05.r51(ctx, sub, nc)
         c05.r52(ctx, sub, sv, nc)
         c05.r53(ctx, sub)
+        c05.r514(ctx, sub)
+        # the cache of chunk files is published only when it is complete (C18 R18.6 / C05 R5.11): otherwise a pass that
+        # failed midway leaves a partial cache, and what later passes yield depends on cache and buffersize
+        from . import c18
+        sub18 = Report('C18', ctx.tier, ctx.root)
+        c18._chunk_class(ctx, sub18, sv)
+        for o in sub18.obligations:
+            if o.rule == 'R18.6':
+                sub.add('R5.11', (o.module, o.qualname), o.construct, o.status, o.message, o.lineno, o.detail)
     finally:
         ctx.report = saved
     n = 0
